@@ -13,7 +13,7 @@ EXPLANATION = (
     "constrain() follows. R06c every parameter-set interpolate() in model.py is multiplied by both calibration factors. R06d execution order is a topological sort "
     "with edges dependency -> dependent; the dynamic list is an order-preserving filter; post-compute pairs update() with constrain(). R06e the three "
     "implementations of the function-suspension window agree on all five order regions, and a parameter scenario partitions the time axis with one threshold. "
-    "R06f: the program set is forwarded through the recursive dynamic-flag propagation, so a function parameter whose (indirect) dependency is overwritten by a program is re-evaluated every step. Interpolated values and numeric clipping are not decided."
+    "R06f: the program set is forwarded through the recursive dynamic-flag propagation, so a function parameter whose (indirect) dependency is overwritten by a program is re-evaluated every step. R06g: the interpolation contract of the databook series (sorted insertion, linear = np.interp with constant extrapolation, stepped = hold with constant extrapolation, assumption-only and single-point shortcuts, Parameter.interpolate uses the stored method, default linear). R06h: Parameter.constrain clips on both sides in its vector and per-step forms and limits are built from the framework's minimum / maximum. The numeric result of np.interp / np.clip themselves is trusted (numpy), not decided."
 )
 
 
@@ -25,6 +25,8 @@ def run(ctx):
     ctx.each(r06d, ctx, repo)
     ctx.each(r06e, ctx, repo)
     ctx.each(r06f, ctx, repo)
+    ctx.each(r06g, ctx, repo)
+    ctx.each(r06h, ctx, repo)
 
 
 def _ids(cfg, stmts):
@@ -379,3 +381,142 @@ def r06f(ctx, repo):
     so = repo.func("model", "Model._set_exec_order")
     keep = [s_ for s_ in own_nodes(so.node) if isinstance(s_, ast.If) and "_is_dynamic" in ast.unparse(s_.test)]
     ctx.check(bool(keep) and any("progset.pars" in ast.unparse(k.test) for k in keep), "R06f", so, keep[0] if keep else so.node, "program-targeted parameters are kept in the per-step update list", "parameters targeted by programs are no longer kept in dynamic_pars: the program overwrite and constrain are skipped for them")
+
+
+def _kw(call, name):
+    for k in call.keywords:
+        if k.arg == name:
+            return k.value
+    return None
+
+
+def r06g(ctx, repo):
+    ctx.rule("R06g", "interpolation contract of the databook series: TimeSeries.insert keeps the time list sorted (bisect position, both lists at the same index, overwrite on an equal year); 'linear' is np.interp over (t1, v1) with left=v1[0], right=v1[-1]; 'previous' holds the value with fill (v1[0], v1[-1]); assumption-only and single-point series return that value; Parameter.interpolate uses the parameter's stored method, which defaults to 'linear'")
+    fi = repo.func("utils", "TimeSeries.insert")
+    me = fi.params[0]
+    tins = [c for c in own_nodes(fi.node) if isinstance(c, ast.Call) and isinstance(c.func, ast.Attribute) and c.func.attr == "insert" and ast.unparse(c.func.value) == "%s.t" % me and len(c.args) == 2]
+    ctx.require(len(tins) == 1, "R06g: `self.t.insert(<position>, t)` not found in TimeSeries.insert")
+    idx = ast.unparse(tins[0].args[0])
+    defs = [s for s in own_nodes(fi.node) if isinstance(s, ast.Assign) and len(s.targets) == 1 and ast.unparse(s.targets[0]) == idx]
+    ok = len(defs) == 1 and isinstance(defs[0].value, ast.Call) and ast.unparse(defs[0].value.func) in ("bisect_left", "bisect.bisect_left") and [ast.unparse(a) for a in defs[0].value.args] == ["%s.t" % me, fi.params[1]]
+    ctx.check(ok, "R06g", fi, defs[0] if defs else enclosing_stmt(tins[0]), "insertion position = bisect_left(self.t, t)", "the insertion position `%s` is not bisect_left(self.t, t): the time list stops being sorted and interpolation (which assumes sorted years) returns values of the wrong years" % idx, stmt_text="insert-position")
+    ins = [c for c in own_nodes(fi.node) if isinstance(c, ast.Call) and isinstance(c.func, ast.Attribute) and c.func.attr == "insert" and ast.unparse(c.func.value) in ("%s.t" % me, "%s.vals" % me)]
+    both = {ast.unparse(c.func.value) for c in ins if len(c.args) == 2 and isinstance(c.args[0], ast.Name) and c.args[0].id == idx}
+    ctx.check(both == {"%s.t" % me, "%s.vals" % me}, "R06g", fi, ins[0] if ins else fi.node, "year and value inserted at the same position", "year and value are not both inserted at the bisect position `%s` (years and values would no longer correspond)" % idx, stmt_text="insert-both-lists")
+    for c in ins:
+        if ast.unparse(c.func.value) == "%s.t" % me:
+            ctx.check(ast.unparse(c.args[1]) == fi.params[1], "R06g", fi, enclosing_stmt(c), "the year list receives the year", "`%s` does not insert the year argument" % norm(enclosing_stmt(c)))
+        else:
+            ctx.check(ast.unparse(c.args[1]) == fi.params[2], "R06g", fi, enclosing_stmt(c), "the value list receives the value", "`%s` does not insert the value argument" % norm(enclosing_stmt(c)))
+    ow = [s for s in own_nodes(fi.node) if isinstance(s, ast.Assign) and isinstance(s.targets[0], ast.Subscript) and ast.unparse(s.targets[0].value) == "%s.vals" % me]
+    ok = len(ow) == 1 and ast.unparse(ow[0].targets[0].slice) == idx and any(pol and "%s.t[%s] == %s" % (me, idx, fi.params[1]) in ast.unparse(t) for t, pol in guards_of(ow[0]))
+    ctx.check(ok, "R06g", fi, ow[0] if ow else fi.node, "an existing year is overwritten in place", "the overwrite of an existing year is not `self.vals[idx] = v` under `self.t[idx] == t` (a year would be entered twice or the wrong entry replaced)", stmt_text="overwrite-existing-year")
+
+    fi = repo.func("utils", "TimeSeries.interpolate")
+    me = fi.params[0]
+    t2 = fi.params[1]
+    # t1, v1 = self.get_arrays() ... filtered by one common mask
+    ga = [s for s in own_nodes(fi.node) if isinstance(s, ast.Assign) and isinstance(s.value, ast.Call) and ast.unparse(s.value.func) == "%s.get_arrays" % me and isinstance(s.targets[0], ast.Tuple)]
+    ctx.require(len(ga) == 1 and len(ga[0].targets[0].elts) == 2, "R06g: `t1, v1 = self.get_arrays()` not found in TimeSeries.interpolate")
+    t1, v1 = [e.id for e in ga[0].targets[0].elts]
+    left, right = "%s[0]" % v1, "%s[-1]" % v1
+    branches = {}
+    for s in own_nodes(fi.node):
+        if isinstance(s, ast.If) and isinstance(s.test, ast.Compare) and len(s.test.ops) == 1 and isinstance(s.test.ops[0], ast.Eq) and ast.unparse(s.test.left) == "method" and isinstance(s.test.comparators[0], ast.Constant):
+            branches[s.test.comparators[0].value] = s
+    ctx.require({"linear", "previous"} <= set(branches), "R06g: method branches 'linear' / 'previous' not found in TimeSeries.interpolate")
+    lin = [c for st in branches["linear"].body for c in ast.walk(st) if isinstance(c, ast.Call) and ast.unparse(c.func) == "np.interp"]
+    rets = [st for st in branches["linear"].body if isinstance(st, ast.Return)]
+    direct = len(lin) == 1 and len(rets) == 1 and (rets[0].value is lin[0] or (isinstance(rets[0].value, ast.Name) and any(isinstance(st, ast.Assign) and st.value is lin[0] and ast.unparse(st.targets[0]) == rets[0].value.id for st in branches["linear"].body) and sum(1 for st in branches["linear"].body for x in ast.walk(st) if isinstance(x, ast.Name) and x.id == rets[0].value.id) == 2))
+    ok = direct and [ast.unparse(a) for a in lin[0].args[:3]] == [t2, t1, v1] and _kw(lin[0], "left") is not None and ast.unparse(_kw(lin[0], "left")) == left and _kw(lin[0], "right") is not None and ast.unparse(_kw(lin[0], "right")) == right and _kw(lin[0], "period") is None
+    ctx.check(ok, "R06g", fi, rets[0] if rets else branches["linear"], "linear: np.interp(t2, t1, v1, left=v1[0], right=v1[-1]) returned as is", "the 'linear' branch does not return np.interp(%s, %s, %s, left=%s, right=%s): parameter values are no longer exact at entered years / linear between / constant outside the data range" % (t2, t1, v1, left, right), stmt_text="linear-branch")
+    prev = [c for st in branches["previous"].body for c in ast.walk(st) if isinstance(c, ast.Call) and ast.unparse(c.func).endswith("interp1d")]
+    ok = len(prev) == 1 and [ast.unparse(a) for a in prev[0].args[:2]] == [t1, v1] and isinstance(_kw(prev[0], "kind"), ast.Constant) and _kw(prev[0], "kind").value == "previous" and _kw(prev[0], "fill_value") is not None and ast.unparse(_kw(prev[0], "fill_value")) == "(%s, %s)" % (left, right) and isinstance(_kw(prev[0], "bounds_error"), ast.Constant) and _kw(prev[0], "bounds_error").value is False
+    ctx.check(ok, "R06g", fi, branches["previous"].body[0], "previous: interp1d(kind='previous', fill_value=(v1[0], v1[-1]), bounds_error=False)", "the 'previous' branch is not interp1d(%s, %s, kind='previous', bounds_error=False, fill_value=(%s, %s))" % (t1, v1, left, right), stmt_text="previous-branch")
+    # the shortcuts
+    short = []
+    for r in own_nodes(fi.node):
+        if isinstance(r, ast.Return) and isinstance(r.value, ast.Call) and ast.unparse(r.value.func) == "np.full" and len(r.value.args) == 2:
+            conds = [(ast.unparse(t), pol) for t, pol in guards_of(r)]
+            short.append((r, ast.unparse(r.value.args[1]), conds))
+    want = {"np.nan": "not %s.has_data" % me, "%s.assumption" % me: "not %s.has_time_data" % me, "%s[0]" % v1: "%s.size == 1" % t1}
+    seen = {}
+    for r, val, conds in short:
+        seen[val] = r
+        w = want.get(val)
+        ok = w is not None and any(pol and t == w for t, pol in conds)
+        ctx.check(ok, "R06g", fi, r, "`%s` returned exactly when %s" % (val, w), "`%s` is returned under %s, expected under `%s`" % (norm(r)[:50], [t for t, p in conds if p][:2], w))
+    ctx.check(set(want) <= set(seen), "R06g", fi, fi.node, "all three shortcuts present", "a shortcut of TimeSeries.interpolate is missing (no data -> NaN, assumption only -> the assumption, one point -> that value): %s" % sorted(set(want) - set(seen)), stmt_text="shortcuts")
+    # the NaN mask is applied to both arrays together
+    masks = [s for s in own_nodes(fi.node) if isinstance(s, ast.Assign) and isinstance(s.targets[0], ast.Tuple) and [ast.unparse(e) for e in s.targets[0].elts] == [t1, v1] and s is not ga[0]]
+    ok = len(masks) == 1 and isinstance(masks[0].value, ast.Tuple) and len(masks[0].value.elts) == 2 and all(isinstance(e, ast.Subscript) for e in masks[0].value.elts) and [ast.unparse(e.value) for e in masks[0].value.elts] == [t1, v1] and len({ast.unparse(e.slice) for e in masks[0].value.elts}) == 1
+    ctx.check(ok, "R06g", fi, masks[0] if masks else fi.node, "years and values filtered by one mask", "years and values are not filtered by the same mask before interpolation", stmt_text="common-mask")
+
+    fi = repo.func("parameters", "Parameter.interpolate")
+    me = fi.params[0]
+    rets = [r for r in own_nodes(fi.node) if isinstance(r, ast.Return)]
+    ok = len(rets) == 1 and isinstance(rets[0].value, ast.Call) and ast.unparse(rets[0].value.func) == "%s.ts[%s].interpolate" % (me, fi.params[2]) and ast.unparse(rets[0].value.args[0]) == fi.params[1] and _kw(rets[0].value, "method") is not None and ast.unparse(_kw(rets[0].value, "method")) == "%s._interpolation_method" % me
+    ctx.check(ok, "R06g", fi, rets[0] if rets else fi.node, "Parameter.interpolate = the population's series at tvec with the stored method", "Parameter.interpolate does not return self.ts[pop_name].interpolate(tvec, method=self._interpolation_method)")
+    init = repo.func("parameters", "Parameter.__init__")
+    st = [s for s in own_nodes(init.node) if isinstance(s, ast.Assign) and ast.unparse(s.targets[0]) == "%s._interpolation_method" % init.params[0]]
+    ok = len(st) == 1 and isinstance(st[0].value, ast.Constant) and st[0].value.value == "linear"
+    ctx.check(ok, "R06g", init, st[0] if st else init.node, "default interpolation method is 'linear'", "the default interpolation method of a Parameter is not 'linear'")
+
+
+def r06h(ctx, repo):
+    ctx.rule("R06h", "Parameter.constrain clips to [limits[0], limits[1]] in both of its forms: the vector form is np.clip(self.vals, self.limits[0], self.limits[1]) stored back, the per-step form replaces a value below limits[0] by limits[0] and a value above limits[1] by limits[1] at the same index; both are guarded only by `self.limits is not None`")
+    fi = repo.func("model", "Parameter.constrain")
+    me, ti = fi.params[0], fi.params[1]
+    lo, hi = "%s.limits[0]" % me, "%s.limits[1]" % me
+    stores = [s for s in own_nodes(fi.node) if isinstance(s, ast.Assign)]
+    vec = [s for s in stores if ast.unparse(s.targets[0]) == "%s.vals" % me]
+    ok = len(vec) == 1 and isinstance(vec[0].value, ast.Call) and ast.unparse(vec[0].value.func) == "np.clip" and [ast.unparse(a) for a in vec[0].value.args] == ["%s.vals" % me, lo, hi] and not vec[0].value.keywords
+    ctx.check(ok, "R06h", fi, vec[0] if vec else fi.node, "vector form: np.clip(self.vals, lo, hi)", "the vector form is not `self.vals = np.clip(self.vals, %s, %s)`: data parameters are no longer clipped into the framework's limits before they drive flows" % (lo, hi), stmt_text="vector-clip")
+    if vec:
+        g = [(ast.unparse(t), pol) for t, pol in guards_of(vec[0])]
+        ctx.check(sorted(g) == sorted([("%s.limits is not None" % me, True), ("%s is None" % ti, True)]), "R06h", fi, vec[0], "vector form runs iff limits exist and no index is given", "the vector clip is guarded by %s" % g, stmt_text="vector-guard")
+    sc_ = [s for s in stores if ast.unparse(s.targets[0]) == "%s.vals[%s]" % (me, ti)]
+    table = set()
+    for s in sc_:
+        g = [(ast.unparse(t), pol) for t, pol in guards_of(s)]
+        inner = [t for t, pol in g if pol and t not in ("%s.limits is not None" % me,)]
+        outer_ok = ("%s.limits is not None" % me, True) in g and ("%s is None" % ti, False) in g
+        table.add((tuple(sorted(inner)), ast.unparse(s.value), outer_ok))
+    cur = "%s.vals[%s]" % (me, ti)
+    def below(t):
+        return t in ("%s < %s" % (cur, lo), "%s > %s" % (lo, cur))
+    def above(t):
+        return t in ("%s > %s" % (cur, hi), "%s < %s" % (hi, cur))
+    got_lo = any(len(i) == 1 and below(i[0]) and v == lo and o for i, v, o in table)
+    got_hi = any(len(i) == 1 and above(i[0]) and v == hi and o for i, v, o in table)
+    extra = [x for x in table if not ((len(x[0]) == 1 and below(x[0][0]) and x[1] == lo) or (len(x[0]) == 1 and above(x[0][0]) and x[1] == hi))]
+    ctx.check(got_lo, "R06h", fi, fi.node, "per-step form: below the lower limit -> the lower limit", "the per-step form of Parameter.constrain does not set `%s = %s` exactly when `%s < %s`: a dependency or program-driven value below the minimum drives flows unclipped" % (cur, lo, cur, lo), stmt_text="scalar-lower")
+    ctx.check(got_hi, "R06h", fi, fi.node, "per-step form: above the upper limit -> the upper limit", "the per-step form of Parameter.constrain does not set `%s = %s` exactly when `%s > %s`: a dependency or program-driven value above the maximum drives flows unclipped" % (cur, hi, cur, hi), stmt_text="scalar-upper")
+    ctx.check(not extra, "R06h", fi, sc_[0] if sc_ else fi.node, "no other store in constrain", "Parameter.constrain also stores %s" % extra[:1], stmt_text="scalar-extra")
+    # limits come from the framework's min/max columns
+    n = 0
+    for f in repo.all_functions():
+        if f.module.name.endswith("model"):
+            for s in own_nodes(f.node):
+                if isinstance(s, ast.Assign) and isinstance(s.targets[0], ast.Attribute) and s.targets[0].attr == "limits" and not (isinstance(s.value, ast.Constant) and s.value.value is None):
+                    n += 1
+                    once = {}
+                    for a in own_nodes(f.node):
+                        if isinstance(a, ast.Assign) and len(a.targets) == 1 and isinstance(a.targets[0], ast.Name):
+                            once.setdefault(a.targets[0].id, []).append(ast.unparse(a.value))
+
+                    def expand(e):
+                        t = ast.unparse(e)
+                        for nm in {x.id for x in ast.walk(e) if isinstance(x, ast.Name)}:
+                            if len(once.get(nm, [])) == 1:
+                                t = t.replace(nm, "(" + once[nm][0] + ")")
+                        return t
+
+                    ok = isinstance(s.value, ast.List) and len(s.value.elts) == 2
+                    if ok:
+                        a, b = expand(s.value.elts[0]), expand(s.value.elts[1])
+                        from_fw = "'minimum value'" in a and "'maximum value'" not in a and "'maximum value'" in b and "'minimum value'" not in b and a.startswith("max(-np.inf") and b.startswith("min(np.inf")
+                        fixed = b == "np.inf" and "inf" not in a and "-" not in a
+                        ok = from_fw or fixed
+                    ctx.check(ok, "R06h", f, s, "limits = [minimum value or -inf, maximum value or +inf] (or a fixed lower bound with no upper bound)", "`%s` does not build limits as [lower, upper] from the framework's minimum / maximum value (or a fixed non-negative lower bound and +inf)" % norm(s)[:80])
+    ctx.require(n >= 1, "R06h: no assignment of Parameter.limits from the framework found in model.py")
